@@ -25,6 +25,7 @@ HERE = os.path.dirname(os.path.abspath(__file__))
 VERIF = os.path.dirname(HERE)
 sys.path.insert(0, HERE)
 import cxx2c
+import fpx
 
 CBMC_FLAGS = ['--bounds-check', '--pointer-check', '--div-by-zero-check', '--signed-overflow-check',
               '--conversion-check', '--undefined-shift-check', '--pointer-overflow-check']
@@ -55,6 +56,54 @@ class Undecided(Exception):
     pass
 
 
+BACKEND_FLAGS = {'minisat': [], 'sat': [], 'cadical': ['--sat-solver', 'cadical'], 'cvc5': ['--cvc5'], 'z3': ['--z3']}
+
+
+def portfolio(base, backends, timeout, log):
+    """Run the same query on several back ends at once; the first to finish with an answer wins."""
+    import tempfile
+    procs = []
+    t0 = time.time()
+    for be in backends:
+        fo = tempfile.TemporaryFile(mode='w+')
+        fe = tempfile.TemporaryFile(mode='w+')
+        p = subprocess.Popen(base + BACKEND_FLAGS[be], stdout=fo, stderr=fe, text=True, preexec_fn=_limits)
+        procs.append((be, p, fo, fe))
+    winner = None
+    try:
+        while time.time() - t0 < timeout and winner is None:
+            alive = False
+            for be, p, fo, fe in procs:
+                rc = p.poll()
+                if rc is None:
+                    alive = True
+                    continue
+                if rc in (0, 10):
+                    fo.seek(0)
+                    winner = (fo.read(), be)
+                    break
+            if winner is None and not alive:
+                break
+            if winner is None:
+                time.sleep(0.2)
+    finally:
+        for be, p, fo, fe in procs:
+            if p.poll() is None:
+                p.kill()
+                p.wait()
+    dt = time.time() - t0
+    with open(log, 'a') as f:
+        f.write('$ %s  [portfolio %s] -> %s in %.1fs\n' % (' '.join(base), backends, winner[1] if winner else 'none', dt))
+        if winner is None:
+            for be, p, fo, fe in procs:
+                fo.seek(0)
+                fe.seek(0)
+                f.write('--- %s rc=%s\n%s\n%s\n' % (be, p.returncode, fo.read()[-3000:], fe.read()[-3000:]))
+    if winner is None:
+        return None, None, dt
+    return winner[0], winner[1], dt
+
+
 def splice(gen, loops):
     """Replace /*@LOOP fn k@*/ markers by the loop contracts; insert ghost code at body begin / end."""
     used = set()
@@ -71,8 +120,8 @@ def splice(gen, loops):
     def repl_body(m):
         key = (m.group(2), int(m.group(3)))
         lc = loops.get(key) or {}
-        return lc.get('begin' if m.group(1) == 'BODY' else 'end', '') or ''
-    out = re.sub(r'/\*@(BODY|BODYEND) (\w+) (\d+)@\*/', repl_body, out)
+        return lc.get({'BODY': 'begin', 'BODYEND': 'end', 'PRELOOP': 'pre'}[m.group(1)], '') or ''
+    out = re.sub(r'/\*@(BODY|BODYEND|PRELOOP) (\w+) (\d+)@\*/', repl_body, out)
     missing = set(loops) - used
     if missing:
         raise Undecided('loop contracts for loops that no longer exist: %s' % sorted(missing))
@@ -84,7 +133,8 @@ def loops_in(gen):
 
 
 def translate_unit(unit):
-    cfg = dict(aliases=unit.get('aliases', {}), stub=unit.get('stub', []), nothrow=unit.get('nothrow', []))
+    cfg = dict(aliases=unit.get('aliases', {}), stub=unit.get('stub', []), nothrow=unit.get('nothrow', []),
+               outline_fp=unit.get('outline_fp', False))
     tr = cxx2c.translate(unit['targets'], cfg)
     return tr
 
@@ -112,11 +162,24 @@ def run_unit(unit, work, tier='quick'):
         gen2 = splice(gen, loops)
         with open(os.path.join(d, 'gen.c'), 'w') as f:
             f.write(gen2)
-        csrc = os.path.join(VERIF, 'contracts', unit['contracts'])
+        csrc = os.path.join(d, 'main.c')
+        decls = {}
+        ctext = open(os.path.join(VERIF, 'contracts', unit['contracts'])).read()
+        for _ in range(6):
+            if 'FPX(' not in re.sub(r'/\*.*?\*/', '', ctext, flags=re.S):
+                break
+            ctext = fpx.expand(ctext, decls)
+        with open(os.path.join(d, 'fpx_decls.h'), 'w') as f:
+            f.write('\n'.join(decls.values()))
+        ctext = ctext.replace('#include "gen.c"', '#include "fpx_decls.h"\n#include "gen.c"', 1)
+        with open(csrc, 'w') as f:
+            f.write(ctext)
         harness = unit.get('harness', 'h_' + unit['enforce'])
-        defs = ['-D%s=%s' % kv for kv in unit.get('defines', {}).items()]
+        dd = dict(unit.get('defines', {}))
         if tier == 'thorough':
-            defs += ['-D%s=%s' % kv for kv in unit.get('defines_thorough', {}).items()]
+            dd.update(unit.get('defines_thorough', {}))
+        res['defines'] = dd
+        defs = ['-D%s=%s' % kv for kv in dd.items()]
         defs.append('-DUNIT_%s' % re.sub(r'\W', '_', name))
         rc, out, err, _ = sh(['goto-cc', '-I' + HERE, '-I' + d, '-I' + os.path.join(VERIF, 'contracts')] + defs +
                              ['--function', harness, csrc, '-o', os.path.join(d, 'a.gb')], log=log)
@@ -133,23 +196,23 @@ def run_unit(unit, work, tier='quick'):
         if rc != 0:
             raise Undecided('goto-instrument failed: ' + (err or out)[-1200:])
         timeout = unit.get('timeout_thorough', unit.get('timeout', 300)) if tier == 'thorough' else unit.get('timeout', 300)
-        cb = ['cbmc', os.path.join(d, 'b.gb')] + CBMC_FLAGS + unit.get('checks', []) + ['--json-ui', '--trace']
+        base = ['cbmc', os.path.join(d, 'b.gb')] + CBMC_FLAGS + unit.get('checks', []) + ['--json-ui', '--trace']
         if nocontract:
             # loops without contract only exist in units that declare an unwinding bound (bounded stand-in)
             if 'unwind' not in unit:
                 raise Undecided('loops without contract and no declared unwinding bound: %s' % nocontract)
-            cb += ['--unwind', str(unit['unwind']), '--unwinding-assertions']
+            base += ['--unwind', str(unit['unwind']), '--unwinding-assertions']
             res['bounded'] = 'unwind %d' % unit['unwind']
-        be = unit.get('backend', 'sat')
-        if be == 'cvc5':
-            cb += ['--cvc5']
-        elif be == 'z3':
-            cb += ['--z3']
-        cb += ['--object-bits', str(unit.get('object_bits', 10))]
-        rc, out, err, dt = sh(cb, log=log, timeout=timeout)
+        base += ['--object-bits', str(unit.get('object_bits', 10))]
+        backends = unit.get('backend', ['cadical', 'minisat'])
+        if isinstance(backends, str):
+            backends = [backends]
+        out, be, dt = portfolio(base, backends, timeout, log)
+        res['backend'] = be
+        res['backends_tried'] = backends
         res['solver_seconds'] = round(dt, 1)
-        if rc == -9:
-            raise Undecided('solver timeout after %ds (%s)' % (timeout, be))
+        if out is None:
+            raise Undecided('solver timeout after %ds (%s)' % (timeout, '+'.join(backends)))
         parse_cbmc(out, res, unit)
     except cxx2c.ExtractionBreak as e:
         res['status'] = 'undecided'
